@@ -62,6 +62,7 @@ type Lifter struct {
 	Returns []string // rendered operands of return statements
 	WireAdv int      // advances derived from a length prefix on the wire
 	curRoot string
+	brPrefixVar string // byte decoder: the variable holding the record's length prefix
 	Safe    bool     // reader: checks are required
 	// RecClass maps the Go name of a nested record type to "struct", "message"
 	// or "union" ("" = unknown); supplied by the caller from the schema it built.
